@@ -606,6 +606,73 @@ Proof.
   unfold run in *. cbn [fold_left]. apply IH. apply step_dropped_gone. exact Hd.
 Qed.
 
+(* the ordinary start-up is the attempt in which the SyncFn calls the closure *)
+Lemma attempt_world_called oc ds : attempt_world true oc ds = world_after_start oc ds.
+Proof.
+  unfold attempt_world, world_after_start. apply map_ext_in. intros p Hp. apply filter_In in Hp.
+  destruct Hp as [_ Hl]. destruct (oc p); cbn in *; try discriminate; reflexivity.
+Qed.
+
+Lemma attempt_world_dropped_gone calls oc ds : dropped_gone (attempt_world calls oc ds).
+Proof.
+  unfold dropped_gone, attempt_world. apply Forall_forall. intros q Hq. apply in_map_iff in Hq.
+  destruct Hq as [p [<- _]]. cbn. destruct (starts (oc p) && (negb calls || syncs (oc p)))%bool; [discriminate|reflexivity].
+Qed.
+
+(* C18_failed_start_kills_all.  Start fails because the runtime's SyncFn returns an error — before it ever called
+   the synchronisation closure, or after it: whatever stage each launched plugin had reached (could not register,
+   Configure failed, configured and waiting, synchronised, refused to synchronise), every process launched by the
+   attempt is gone when Start returns, nothing is kept in r.plugins, and they are all accounted for *)
+Theorem failed_start_kills_all calls oc ds :
+  all_gone (failed_start_world calls oc ds) /\ r_plugins (failed_start_world calls oc ds) = [] /\
+  map rp_d (failed_start_world calls oc ds) = filter (fun p => launches (oc p)) ds.
+Proof.
+  unfold failed_start_world.
+  destruct (stop_kills_all _ (attempt_world_dropped_gone calls oc ds)) as [G [R M]].
+  split; [exact G|split; [exact R|]]. rewrite M. unfold attempt_world. rewrite map_map. cbn. apply map_id.
+Qed.
+
+Lemma start_world_dropped_gone calls fails oc ds : dropped_gone (start_world calls fails oc ds).
+Proof.
+  unfold start_world. destruct fails; [|apply attempt_world_dropped_gone].
+  change (failed_start_world calls oc ds) with (step (attempt_world calls oc ds) AStop).
+  apply step_dropped_gone. apply attempt_world_dropped_gone.
+Qed.
+
+(* The variant whose clean-up walks only the plugins the closure synchronised (an empty slice when the closure never
+   ran) is refuted: a configured plugin is left running *)
+Definition failed_start_world_synced_only (calls : bool) (oc : discovered -> outcome) (ds : list discovered) : list rplugin :=
+  if calls then stop_plugins (attempt_world calls oc ds) else attempt_world calls oc ds.
+
+Theorem failed_start_synced_only_refuted : exists oc ds, ~ all_gone (failed_start_world_synced_only false oc ds).
+Proof.
+  exists (fun _ => OGood), [ {| d_idx := "10"; d_base := "a"; d_cfg := "" |} ].
+  intros H. inversion H as [|x l Hx _]; subst. cbn in Hx. discriminate.
+Qed.
+
+(* getPluginConfig: an existing, readable, EMPTY idx-base.conf is the configuration; base.conf is not consulted *)
+Theorem empty_specific_shadows d idx base :
+  read_file d (idx ++ "-" ++ base ++ ".conf") = RData "" -> get_plugin_config d idx base = Some "".
+Proof. intros H. unfold get_plugin_config, dropin_paths. cbn [first_config]. rewrite H. reflexivity. Qed.
+
+(* the variant that goes on to the next file while the content is empty is refuted *)
+Fixpoint first_nonempty_config (d : dropin_dir) (paths : list string) : option string :=
+  match paths with
+  | [] => Some ""
+  | p :: r =>
+      match read_file d p with
+      | RData s => if String.eqb s "" then first_nonempty_config d r else Some s
+      | RMissing => first_nonempty_config d r
+      | RError => None
+      end
+  end.
+
+Theorem first_nonempty_refuted : exists d idx base,
+  read_file d (idx ++ "-" ++ base ++ ".conf") = RData "" /\ first_nonempty_config d (dropin_paths idx base) <> Some "".
+Proof.
+  exists [("10-a.conf", DContent ""); ("a.conf", DContent "general")], "10", "a". split; [reflexivity|]. cbn. discriminate.
+Qed.
+
 Lemma step_all_gone w a : all_gone w -> all_gone (step w a).
 Proof.
   unfold all_gone. intros Hg. rewrite Forall_forall in Hg. apply Forall_forall. intros q Hq.
